@@ -25,7 +25,7 @@ RULE = ("2 of 3 runs: clock sweep - one bundled tariff x one of the 14 calendar-
         "distinct = (tariff, calendar type, period, start class, day-of-year bucket)")
 PROBES = ["lookups", "near_breakpoint", "season_edge_crossed", "weekday_class_midnight", "year_wrap_crossed", "leap_day",
           "world_runs", "get_prices_start0_later", "get_prices_explicit_start", "demand_charge_query", "energy_cost_checked",
-          "winter_pge", "aware_two_zone_lookup", "explicit_tariff_cost_checked", "price_vector_scribbled", "vector_longer_than_a_year"]
+          "winter_pge", "aware_two_zone_lookup", "explicit_tariff_cost_checked", "price_vector_scribbled", "vector_longer_than_a_year", "host_tz_non_utc"]
 FAULT_DIMENSION = "none - the simulated clock is swept across the calendar (inputs, not faults)"
 REAL_VS_STUB = "real: TimeOfUseTariff + bundled JSON files, Interface.get_prices/get_demand_charge, analysis.energy_cost/demand_charge, Simulator; reference reads the JSON files itself"
 ASSUMPTIONS = ["prices compared exactly (they are copied from the file, never computed)", "costs within 1e-9 relative"]
@@ -70,6 +70,14 @@ def gen(rs, tier):
         else:
             sc["sim"]["start"] = [y, r.randint(1, 12), r.randint(1, 28), r.randint(0, 23), r.choice([0, 15, 30, 45])]
         sc["tariff"] = name
+        rh = sub(rs, "host_tz")
+        sc["sim"]["host_tz"] = rh.choice(["UTC", "UTC", "America/Los_Angeles", "Europe/Berlin", "Australia/Sydney"])
+        if sc["sim"]["host_tz"] != "UTC" and rh.random() < 0.5:
+            # the run spans a night in which the machine's zone changes its UTC offset
+            mo_, d_ = {"America/Los_Angeles": [(3, 10), (11, 3)], "Europe/Berlin": [(3, 31), (10, 27)],
+                       "Australia/Sydney": [(4, 7), (10, 6)]}[sc["sim"]["host_tz"]][rh.randrange(2)]
+            sc["sim"]["start"] = [2019, mo_, d_, rh.choice([0, 1, 1]), rh.choice([0, 30, 45])]
+            sc["sim"].pop("start_tz", None)
         return sc
     year = r.choice(YEARS)
     period = r.choice([1, 5, 15, 15, 60, 60])
@@ -283,6 +291,9 @@ def check_world(sc):
         ctx.post_hooks.append(post)
 
     tr = driver.run_world(sc, observe=0, setup=setup)
+    host = sc["sim"].get("host_tz", "UTC")
+    if host != "UTC":
+        pre.probe("host_tz_non_utc")
     out = base_outcome(tr, extra_sig=[name, sc["sim"]["start"][:3]])
     out.viol = pre.viol
     out.probes = dict(out.probes, **pre.probes)
